@@ -22,3 +22,11 @@ REG.schema("BaseEVSE", bases=["BaseSimObj"],
 REG.schema("EVSE", bases=["BaseEVSE"], _max_rate=Real, _min_rate=Real)
 REG.schema("DeadbandEVSE", bases=["BaseEVSE"], _max_rate=Real, _deadband_end=Real)
 REG.schema("FiniteRatesEVSE", bases=["BaseEVSE"], allowable_rates=Seq(Real))
+
+# ---- events
+REG.schema("Event", bases=["BaseSimObj"], timestamp=Int, event_type=Id, precedence=Real)
+REG.schema("EVEvent", bases=["Event"], ev=Ref("EV"))
+REG.schema("PluginEvent", bases=["EVEvent"])
+REG.schema("UnplugEvent", bases=["EVEvent"])
+REG.schema("RecomputeEvent", bases=["Event"])
+REG.schema("EventQueue", bases=["BaseSimObj"], _queue=Seq(Tup(Int, Ref("Event"))), _timestep=Int)
